@@ -287,3 +287,108 @@ func ZZ_C04_faults() {
 	zzAssert(zzJSONable(r.Data, 0), "data not serialisable")
 	zzCover("end")
 }
+
+func zzErrPathStr(p []interface{}) string {
+	ps := ""
+	for _, k := range p {
+		switch v := k.(type) {
+		case string:
+			ps += "/" + v
+		case int:
+			ps += "/" + zzItoa(v)
+		}
+	}
+	return ps
+}
+
+func zzNullAt(data interface{}, path []interface{}) bool {
+	cur := data
+	for _, k := range path {
+		if cur == nil {
+			return true
+		}
+		switch v := k.(type) {
+		case string:
+			m, ok := cur.(map[string]interface{})
+			if !ok {
+				return false
+			}
+			cur = m[v]
+		case int:
+			l, ok := cur.([]interface{})
+			if !ok || v >= len(l) {
+				return false
+			}
+			cur = l[v]
+		}
+	}
+	return cur == nil
+}
+
+var zzC18Queries = []string{
+	"{ o{ o{ o{ x y id } } } }",
+	"{ ol{ o{ x y } n{ id } x } }",
+	"{ a b o{ x y o{ x y o{ x y o{ x y } } } } }",
+	"{ p:o{ q:o{ r:o{ s:x t:y } } } ol{ u:x } }",
+}
+
+// ZZ_C18_paths: a chosen subset of the leaf fields of deep queries (nested
+// objects, lists, aliases) fails; every error carries the path of the field
+// that failed (each failing field exactly one error) and the data at that
+// path is null.
+func ZZ_C18_paths() {
+	qi := zzChoice("q", len(zzC18Queries))
+	text := zzC18Queries[qi]
+	w := &zzWorld{}
+	schema := zzBuildSchema(w)
+	doc := zzParse(text)
+	_, calls := zzRefExecute(w, doc, "", nil)
+	// leaf invocations
+	var leaves []string
+	for _, c := range calls {
+		at, dot := 0, 0
+		for i := 0; i < len(c); i++ {
+			if c[i] == '@' {
+				at = i
+			}
+		}
+		for i := 0; i < at; i++ {
+			if c[i] == '.' {
+				dot = i
+			}
+		}
+		spec := zzFieldSpecOf(zzTypeSpecOf(c[:dot]), c[dot+1:at])
+		if spec != nil && zzIsLeafType(spec.typ) {
+			leaves = append(leaves, c[at+1:])
+		}
+	}
+	// which leaves fail: all of them, or a chosen pair (so that siblings and cousins fail together)
+	failing := map[string]bool{}
+	mode := zzChoice("mode", 2)
+	if mode == 0 {
+		for _, l := range leaves {
+			failing[l] = true
+		}
+	} else {
+		failing[leaves[zzChoice("f1", len(leaves))]] = true
+		failing[leaves[zzChoice("f2", len(leaves))]] = true
+	}
+	w.hook = func(parent, field string, p ResolveParams) (interface{}, error, bool) {
+		if failing[zzPathString(p.Info.Path)] {
+			return nil, errors.New("boom"), true
+		}
+		return nil, nil, false
+	}
+	r := Do(Params{Schema: schema, RequestString: text})
+	zzAssert(len(r.Errors) == len(failing), "one error per failing field")
+	seen := map[string]bool{}
+	for _, e := range r.Errors {
+		ps := zzErrPathStr(e.Path)
+		zzAssert(failing[ps], "an error path does not address a failing field: "+ps)
+		zzAssert(!seen[ps], "two errors carry the same path: "+ps)
+		seen[ps] = true
+		zzAssert(zzNullAt(r.Data, e.Path), "data at an error's path is not null")
+		zzAssert(len(e.Locations) == 1 && e.Locations[0].Line == 1 && e.Locations[0].Column >= 1, "field error location")
+	}
+	zzCover("end")
+}
